@@ -44,6 +44,15 @@ Fixpoint fresh_for (n : nat) (vs : list var) : nat * list (var * var) :=
   | v :: r => let '(n', s) := fresh_for (S n) r in (n', (v, (fresh_name n, snd v)) :: s)
   end.
 
+(* the renamed variable set keeps the positions of the old one (sets in the implementation) *)
+Fixpoint rn_var (sub : list (var * var)) (v : var) : var :=
+  match sub with
+  | [] => v
+  | (k, f) :: r => if var_eqb k v then f else rn_var r v
+  end.
+Definition sub_terms (sub : list (var * var)) : list (var * term) :=
+  map (fun p => (fst p, TSym (fst (snd p)) (snd (snd p)))) sub.
+
 (* the inner loop of walk_conj_disj for one argument *)
 Fixpoint rename_quants (n : nat) (reserved : list var) (subL : qpref) (subm : term)
   : nat * list var * qpref * term :=
@@ -54,9 +63,9 @@ Fixpoint rename_quants (n : nat) (reserved : list var) (subL : qpref) (subm : te
       let '(n1, sub) := fresh_for n needs in
       let subm1 := match needs with
                    | [] => subm
-                   | _ => vsubst (map (fun p => (fst p, TSym (fst (snd p)) (snd (snd p)))) sub) subm
+                   | _ => vsubst (sub_terms sub) subm
                    end in
-      let new_q := filter (fun v => negb (mem var_eqb v needs)) qvars ++ map snd sub in
+      let new_q := map (rn_var sub) qvars in
       let '(n2, reserved2, restL, subm2) := rename_quants n1 (union var_eqb reserved new_q) rest subm1 in
       (n2, reserved2, (q, new_q) :: restL, subm2)
   end.
